@@ -120,6 +120,8 @@ type Cfg struct {
 	Grps  [][]int  `json:"grps"`
 }
 
+const termFinalizer = "verif/terminating"
+
 type Act struct {
 	I int    `json:"i"` // instance id within the segment (order / faults refer to it); 0 = same as A
 	A int    `json:"a"` // model actor id: reconcile of pod p = p, 3 = Sync / SyncForNode, 4 = event handler
@@ -140,7 +142,7 @@ type Step struct {
 	Order  []int   `json:"order,omitempty"`
 	Faults []Fault `json:"faults,omitempty"`
 	Envs   []Step  `json:"envs,omitempty"` // run: environment events placed by a negative order entry -(i+1)
-	E      string  `json:"e,omitempty"`    // env: PodRunning | Annotate | Restart
+	E      string  `json:"e,omitempty"`    // env: PodRunning | PodTerminating | Annotate | Restart
 	P      int     `json:"p,omitempty"`
 	G      int     `json:"g,omitempty"`
 }
@@ -677,6 +679,9 @@ func (w *World) project() map[string]any {
 		cm := map[string]any{"cap": 0, "evar": 0, "nvd": []int{}, "por": 0}
 		if err := w.base.Get(ctx, client.ObjectKey{Namespace: podNS, Name: podName(p)}, pod); err == nil {
 			pm["ph"] = string(pod.Status.Phase)
+			if pod.DeletionTimestamp != nil && pod.Status.Phase == v1.PodRunning {
+				pm["ph"] = "Terminating"
+			}
 			pm["node"] = pod.Spec.NodeName
 			lab := []int{0, 0}
 			for g := 1; g <= NG; g++ {
@@ -972,7 +977,13 @@ func (w *World) start(a *actor) {
 				w.skip(a) // the schedule's event does not apply to the real store (e.g. the pod is already gone)
 				return
 			}
-			if err := w.base.Delete(ctx, pod); err != nil {
+			if pod.DeletionTimestamp != nil {
+				// the end of a graceful termination: the finalizer goes, the fake client removes the object
+				pod.Finalizers = nil
+				if err := w.base.Update(ctx, pod); err != nil {
+					fatal("PodDeleted (finalizer): %v", err)
+				}
+			} else if err := w.base.Delete(ctx, pod); err != nil {
 				fatal("PodDeleted: %v", err)
 			}
 			fn = func() (bool, bool) {
@@ -1200,6 +1211,21 @@ func (w *World) envStep(st Step) {
 		pod.Status.Phase = v1.PodRunning
 		if err := w.base.Status().Update(ctx, pod); err != nil {
 			fatal("PodRunning: %v", err)
+		}
+	case "PodTerminating":
+		// graceful deletion: a finalizer keeps the object, the fake client sets the deletion timestamp
+		pod := &v1.Pod{}
+		if err := w.base.Get(ctx, client.ObjectKey{Namespace: podNS, Name: podName(st.P)}, pod); err != nil ||
+			pod.Status.Phase != v1.PodRunning || pod.DeletionTimestamp != nil {
+			w.desync++
+			return
+		}
+		pod.Finalizers = append(pod.Finalizers, termFinalizer)
+		if err := w.base.Update(ctx, pod); err != nil {
+			fatal("PodTerminating (finalizer): %v", err)
+		}
+		if err := w.base.Delete(ctx, pod); err != nil {
+			fatal("PodTerminating: %v", err)
 		}
 	case "Annotate":
 		rl := &v1.PodList{}
